@@ -362,6 +362,41 @@ def r14_7(chk, facts):
                     f['n'], f['l'], A.callee_name(c)), None, f['q'])
     chk.require(n >= 20, 'R14.7: only %d forwarding calls found among the jsonpointer overloads' % n)
 
+def r14_8(chk, facts):
+    """unflatten() keeps the flattened members in a std::map keyed by json_pointer and takes every run of keys with a common prefix as one
+    subtree: that is only right if pointers are ordered lexicographically by their tokens (a prefix sorts directly before its extensions)."""
+    chk.rule('R14.8', 'pointer ordering: basic_json_pointer operator< is, on its only path, the lexicographic comparison of the two token '
+                      'sequences, first operand first (vector operator< or std::lexicographical_compare over tokens_); the container unflatten() '
+                      'groups by depends on it', floor=1)
+    fns = [f for f in facts.functions if f['file'].endswith('jsonpointer.hpp') and f['n'] == 'operator<' and f.get('body') is not None and len(f.get('params') or []) == 2
+           and all('basic_json_pointer' in F.tname(f, p['t']) for p in f['params'])]
+    chk.require(fns, 'R14.8: operator< of basic_json_pointer not found')
+    for fn in U.one_per_inst(sorted(fns, key=lambda f: bool(f.get('dep')))):
+        chk.analysed(fn)
+        site = U.site(fn, 'ordering')
+        fx = I.expand(facts, fn, depth=1)
+        ps = A.path_summaries(C.CFG(fx['body']), fx['body'])
+        p0, p1 = fn['params'][0]['id'], fn['params'][1]['id']
+        def tokens_of(e):
+            """id of the pointer whose token sequence (or an iterator into it) e denotes"""
+            ids = [y.get('id') for y in A.walk(e) if y.get('k') == 'DeclRefExpr' and y.get('id') in (p0, p1)]
+            mem = [y for y in A.walk(e) if y.get('k') == 'MemberExpr']
+            return ids[0] if len(set(ids)) == 1 and mem else None
+        ok = False; why = 'it has %s paths' % (len(ps) if ps is not None else 'too many')
+        if ps is not None and len(ps) == 1 and not list(ps)[0][0] and not list(ps)[0][1]:
+            rets = [y for y in A.walk_no_lambda(fx['body']) if y.get('k') == 'ReturnStmt']
+            v = A.strip(rets[0].get('val'), casts=True) if len(rets) == 1 else None
+            while v is not None and v.get('k') in ('ExprWithCleanups', 'MaterializeTemporaryExpr', 'ParenExpr'): v = A.strip(v.get('sub'), casts=True)
+            why = 'it returns `%s`' % A.text(v)[:70]
+            if v is not None and v.get('k') == 'CXXOperatorCallExpr' and v.get('oop') == '<' and len(v.get('args') or []) == 2:
+                ok = [tokens_of(a) for a in v['args']] == [p0, p1]
+            elif v is not None and A.is_call(v) and A.callee_name(v) == 'lexicographical_compare' and len(v.get('args') or []) in (4, 5):
+                ok = [tokens_of(a) for a in v['args'][:4]] == [p0, p0, p1, p1]
+        if ok: chk.ok('R14.8', site, {'function': fn['q']})
+        else:
+            chk.fail('R14.8', site, fn['file'], fn['l'], 'operator< of basic_json_pointer is not the plain lexicographic comparison of lhs.tokens_ with rhs.tokens_ (%s): unflatten() groups the keys of a '
+                     'std::map<json_pointer, ...> into subtrees by runs of a common prefix, which are contiguous only under the lexicographic order' % why, None, fn['q'])
+
 def run(chk, tier, only_rule=None):
     chk.explanation = EXPLANATION
     chk.not_decided = NOT_DECIDED
@@ -374,6 +409,7 @@ def run(chk, tier, only_rule=None):
     r14_5(chk, facts)
     r14_6(chk, facts)
     r14_7(chk, facts)
+    r14_8(chk, facts)
     from . import c05, c04
     c04.r04_7(chk, F.load(['core'], tier))     # array indices of wide-character pointers go through dec_to_integer
     c05.r05_12(chk, tier, units=('core', 'patch'))     # object keys of wide-character documents are compared whole
